@@ -144,8 +144,19 @@ func Conform(sc *Scenario, dbPath string, o ConformOpts) (*ConformResult, *Node,
 		}
 		totals := totalsRow(db)
 		if len(m.Unspec) > 0 {
+			ratesStillSpecified := true
 			for _, u := range m.Unspec {
 				res.Unspec[u]++
+				if u != "C11/band-early-return" {
+					ratesStillSpecified = false
+				}
+			}
+			// the recorded rates of an out-of-band block are as specified (none) although the
+			// rest of the block is not: C12's projection is still compared
+			if ratesStillSpecified {
+				if d := diffRows(m.RateRows[h], rateRows(db, h)); d != "" {
+					add(Mismatch{h, "rate", []string{"C12"}, d})
+				}
 			}
 			resync(m, db, h)
 			prevTotals = totals
